@@ -484,7 +484,16 @@ class Session:
                 undo = perturb_result(live)
                 if undo is not None:
                     pool_mut = [X.canon(snap_obj(o)) for _, o in self.pool]
+                    # while the result is modified: the same call on equal (rebuilt) arguments must still give the
+                    # original answer - a result handed out from a cache would come back modified
+                    again = replay_step(step) if self.rng.random() < 0.5 else None
                     undo()
+                    if again is not None:
+                        ctx.count("repeat-while-result-modified")
+                        if X.canon(again) != X.canon(out):
+                            ctx.violation("result-shared-with-later-calls:%s" % op, "after the caller modified the "
+                                          "result of %s, an identical call returned %s instead of %s" % (
+                                              op, json.dumps(again)[:300], json.dumps(out)[:300]), case)
                     if pool_mut != pool_after:
                         ctx.violation("result-mutation-visible-in-operand:%s" % op, "mutating the result of %s "
                                       "changed a pool member" % op, case)
